@@ -90,10 +90,16 @@ def build(case):
         for cel in rng.sample(solid, max(1, len(solid) // 3)):
             cel.mat, cel.rho = 0, None
     elif mode in ('same-value-respelled', 'different-value') and len(solid) >= 2:
-        for _ in range(max(1, len(solid) // 3)):
-            a, b = rng.sample(solid, 2)
+        pool = list(solid)
+        rng.shuffle(pool)
+        nums = list(range(1, 10))
+        rng.shuffle(nums)
+        # disjoint pairs with distinct values, so that no third spelling of
+        # one value outside the class can arise by accident
+        for _ in range(max(1, min(len(solid) // 3, len(pool) // 2, 9))):
+            a, b = pool.pop(), pool.pop()
             b.mat = a.mat
-            num = rng.randint(1, 9)
+            num = nums.pop()
             if mode == 'same-value-respelled':
                 pa, pb = rng.choice(ZERO_CLASS + EXP_CLASS)
                 if rng.random() < 0.5:
